@@ -51,6 +51,7 @@ CRATE_FINDERS = {
     "runexec": ("src/app/run.rs", "units/runexec/finder_test.rs"),
     "file": ("src/core/file.rs", "units/file/finder_test.rs"),
     "lock": ("src/core/server.rs", "units/lock/finder_test.rs"),
+    "plan": ("src/app/run.rs", "units/plan/finder_test.rs"),
 }
 # further finders of a unit (integration tests driving the binary)
 EXTRA_FINDERS = {"log": [("tests/", "units/log/finder_show_test.rs")], "config": [("tests/", "units/config/finder_generate_test.rs")]}
